@@ -306,6 +306,7 @@ class Scheduler:
 
     async def try_handle_task(self, tid, name, script, working_dir, time_limit, deps):
         proc = None
+        acquired = False
         try:
             if deps:
                 await asyncio.wait(
@@ -318,6 +319,7 @@ class Scheduler:
                         return
 
             await self.cores_ressource.acquire()
+            acquired = True
             self.task_states[tid] = LocalStatus.RUNNING
 
             proc = await asyncio.create_subprocess_shell(
@@ -360,7 +362,8 @@ class Scheduler:
         else:
             self.task_states[tid] = LocalStatus.COMPLETED
         finally:
-            self.cores_ressource.release()
+            if acquired:
+                self.cores_ressource.release()
 
 
 @attrs.define
